@@ -1,12 +1,1260 @@
-//! C18 - not built yet.
-use crate::run::Ctx;
-use serde_json::Value;
+//! C18 - year-months and month-days are canonical (hidden day 1 / reference year 1972) whichever route
+//! built them, and year-month arithmetic counts whole months exactly as plain-date arithmetic from the
+//! first of the month.
+//!
+//! Sub-checks
+//!   ym-routes  every construction route of one year-month (strings short/basic/6-digit/full date/date-time
+//!              with offset and annotations, PlainDate::to_plain_year_month, from_partial,
+//!              Calendar::year_month_from_partial, new_with_overflow(.., None|Some(1), ..), with) must agree:
+//!              `==`, compare_iso, the four DisplayCalendar prints (day 01 where the day is shown), month code;
+//!              outside -271821-04 ..= +275760-09 every route is a RangeError.
+//!   ym-ctor    low-level constructor with explicit reference day / impossible month / both overflow modes
+//!              (RegulateISODate + ISOYearMonthWithinLimits), from_partial and with on impossible months.
+//!   ym-add     add/subtract against AddISODate from day 1 (refm::dateadd), result canonical.
+//!   ym-diff    until/since against DifferenceISODate / DifferencePlainDateTimeWithRounding between the two
+//!              first-of-months (refm::relround), option validation (week/day/time units, auto smallest,
+//!              largest < smallest are RangeErrors), no day/week/time part ever, add(until) law.
+//!   md-routes  every construction route of one month-day agrees, reference year 1972.
+//!   md-ctor    impossible days/months x overflow x explicit reference year x field records.
+//!   md-with    PlainMonthDay::with against the field merge (currently unimplemented: unjudged).
 
-pub fn run(_ctx: &mut Ctx) {
-    eprintln!("property C18 has no check yet");
-    std::process::exit(2);
+use crate::conv::*;
+use crate::gen;
+use crate::refm::civil::*;
+use crate::refm::dateadd::*;
+use crate::refm::dur::{Dur, U};
+use crate::refm::fmt as rfmt;
+use crate::refm::relround::{diff_with_rounding, Internal};
+use crate::refm::round::Mode;
+use crate::run::*;
+use proptest::prelude::*;
+use serde::{Deserialize, Serialize};
+use serde_json::Value;
+use std::str::FromStr;
+use temporal_rs::error::ErrorKind;
+use temporal_rs::options::{ArithmeticOverflow, DisplayCalendar, Unit};
+use temporal_rs::partial::PartialDate;
+use temporal_rs::{MonthCode, PlainDate, PlainMonthDay, PlainYearMonth, TemporalResult};
+
+// ------------------------------------------------------------------------------------------
+// small helpers
+
+const SHOWS: [DisplayCalendar; 4] = [DisplayCalendar::Auto, DisplayCalendar::Never, DisplayCalendar::Always, DisplayCalendar::Critical];
+const MIN_YM: (i64, u8) = (-271821, 4);
+/// month index: months since 0000-01
+fn midx(y: i64, m: u8) -> i64 {
+    y * 12 + (m as i64 - 1)
+}
+fn from_midx(i: i64) -> (i64, u8) {
+    balance_ym(0, i + 1)
+}
+const MIN_IDX: i64 = -271821 * 12 + 3;
+const MAX_IDX: i64 = 275760 * 12 + 8;
+
+fn ovf(reject: bool) -> ArithmeticOverflow {
+    if reject {
+        ArithmeticOverflow::Reject
+    } else {
+        ArithmeticOverflow::Constrain
+    }
+}
+fn rov(reject: bool) -> Overflow {
+    if reject {
+        Overflow::Reject
+    } else {
+        Overflow::Constrain
+    }
+}
+fn set_fail(o: &mut Outcome, sig: String, exp: String, act: String) {
+    if o.fail.is_none() {
+        o.fail = Some(Fail { sig, expected: exp, actual: act });
+    }
+}
+/// RegulateISODate on (month, day) for a given year
+fn regulate(y: i64, m: u8, d: u8, reject: bool) -> Option<(u8, u8)> {
+    if reject {
+        if (1..=12).contains(&m) && d >= 1 && d <= dim(y, m) {
+            Some((m, d))
+        } else {
+            None
+        }
+    } else {
+        let m2 = m.clamp(1, 12);
+        Some((m2, d.clamp(1, dim(y, m2))))
+    }
+}
+fn month_code(m: u8) -> MonthCode {
+    MonthCode::from_str(&format!("M{:02}", m)).expect("month code literal")
+}
+fn year_str(y: i64, force6: bool) -> String {
+    if force6 && (0..=9999).contains(&y) {
+        format!("+{:06}", y)
+    } else {
+        rfmt::year(y)
+    }
+}
+/// time + offset + annotations tail of a date-time string
+fn dt_tail(ns: i128, sep: u8, off_min: Option<i32>, zone: u8, cal: bool) -> String {
+    let mut s = String::new();
+    s.push(match sep % 3 {
+        0 => 'T',
+        1 => 't',
+        _ => ' ',
+    });
+    s += &rfmt::time(ns, rfmt::Prec::Auto);
+    if let Some(o) = off_min {
+        s += &rfmt::offset_minutes(o as i64);
+    }
+    match zone % 4 {
+        1 => s += "[UTC]",
+        2 => s += "[Europe/Berlin]",
+        3 => s += "[+01:00]",
+        _ => {}
+    }
+    if cal {
+        s += "[u-ca=iso8601]";
+    }
+    s
+}
+fn ym_prints(v: &PlainYearMonth) -> [String; 4] {
+    [v.to_ixdtf_string(SHOWS[0]), v.to_ixdtf_string(SHOWS[1]), v.to_ixdtf_string(SHOWS[2]), v.to_ixdtf_string(SHOWS[3])]
+}
+fn md_prints(v: &PlainMonthDay) -> [String; 4] {
+    [v.to_ixdtf_string(SHOWS[0]), v.to_ixdtf_string(SHOWS[1]), v.to_ixdtf_string(SHOWS[2]), v.to_ixdtf_string(SHOWS[3])]
+}
+/// TemporalYearMonthToString for the ISO calendar: the reference day is shown exactly when the calendar is
+fn want_ym_prints(y: i64, m: u8, d: u8) -> [String; 4] {
+    let short = format!("{}-{:02}", rfmt::year(y), m);
+    [short.clone(), short, format!("{}[u-ca=iso8601]", rfmt::date(y, m, d)), format!("{}[!u-ca=iso8601]", rfmt::date(y, m, d))]
+}
+/// TemporalMonthDayToString for the ISO calendar
+fn want_md_prints(ry: i64, m: u8, d: u8) -> [String; 4] {
+    let short = format!("{:02}-{:02}", m, d);
+    [short.clone(), short, format!("{}[u-ca=iso8601]", rfmt::date(ry, m, d)), format!("{}[!u-ca=iso8601]", rfmt::date(ry, m, d))]
+}
+/// the hidden reference day as shown by the `always` print (the field itself is private)
+fn hidden_day(v: &PlainYearMonth) -> Option<u8> {
+    let s = v.to_ixdtf_string(DisplayCalendar::Always);
+    let i = s.find('[')?;
+    s.get(i.checked_sub(2)?..i)?.parse().ok()
+}
+fn ym_of(v: &PlainYearMonth) -> (i64, u8) {
+    (v.iso_year() as i64, v.iso_month())
+}
+fn canon_ym(y: i64, m: u8) -> TemporalResult<PlainYearMonth> {
+    PlainYearMonth::new_with_overflow(y as i32, m, None, iso(), ArithmeticOverflow::Reject)
+}
+fn show_ym(r: &TemporalResult<PlainYearMonth>) -> String {
+    match r {
+        Ok(v) => format!("Ok({})", v.to_ixdtf_string(DisplayCalendar::Always)),
+        Err(e) => err_str(e),
+    }
+}
+fn show_md(r: &TemporalResult<PlainMonthDay>) -> String {
+    match r {
+        Ok(v) => format!("Ok({})", v.to_ixdtf_string(DisplayCalendar::Always)),
+        Err(e) => err_str(e),
+    }
 }
 
-pub fn replay(_ctx: &mut Ctx, _sub: &str, _case: &Value) -> bool {
-    false
+/// Judge one year-month result. `want`: Some((y, m, hidden day)) or None = RangeError.
+/// `canon`: the canonical value of (y, m) (hidden day 1) where it could be built.
+fn judge_ym(o: &mut Outcome, pre: &str, got: &TemporalResult<PlainYearMonth>, want: Option<(i64, u8, u8)>, canon: Option<&PlainYearMonth>) {
+    if o.failed() {
+        return;
+    }
+    match (want, got) {
+        (None, Err(e)) => {
+            if e.kind() != ErrorKind::Range {
+                set_fail(o, format!("{pre}/error-kind"), "RangeError".into(), err_str(e));
+            }
+        }
+        (None, Ok(_)) => set_fail(o, format!("{pre}/accepted"), "RangeError".into(), show_ym(got)),
+        (Some(w), Err(_)) => set_fail(o, format!("{pre}/unexpected-error"), format!("{:?}", want_ym_prints(w.0, w.1, w.2)[2]), show_ym(got)),
+        (Some((y, m, d)), Ok(v)) => {
+            if ym_of(v) != (y, m) {
+                return set_fail(o, format!("{pre}/fields"), format!("{:?}", (y, m)), format!("{:?}", ym_of(v)));
+            }
+            let (wp, gp) = (want_ym_prints(y, m, d), ym_prints(v));
+            if wp != gp {
+                // which of the two print families disagrees
+                let what = if wp[0] != gp[0] || wp[1] != gp[1] { "print-short" } else { "hidden-day" };
+                return set_fail(o, format!("{pre}/{what}"), format!("{wp:?}"), format!("{gp:?}"));
+            }
+            if v.to_string() != wp[0] {
+                return set_fail(o, format!("{pre}/display"), wp[0].clone(), v.to_string());
+            }
+            if v.month_code().as_str() != format!("M{:02}", m) || v.year() as i64 != y || v.month() != m {
+                return set_fail(o, format!("{pre}/calendar-fields"), format!("{y} M{m:02}"), format!("{} {} {}", v.year(), v.month(), v.month_code().as_str()));
+            }
+            if let Some(c) = canon {
+                if (v == c) != (d == 1) {
+                    return set_fail(o, format!("{pre}/equality"), format!("== canonical: {}", d == 1), format!("{}", v == c));
+                }
+                if v.compare_iso(c) != d.cmp(&1) {
+                    return set_fail(o, format!("{pre}/compare_iso"), format!("{:?}", d.cmp(&1)), format!("{:?}", v.compare_iso(c)));
+                }
+            }
+        }
+    }
+}
+
+/// Judge one month-day result. `want`: Some((reference year, m, d)) or None = RangeError.
+fn judge_md(o: &mut Outcome, pre: &str, got: &TemporalResult<PlainMonthDay>, want: Option<(i64, u8, u8)>, canon: Option<&PlainMonthDay>) {
+    if o.failed() {
+        return;
+    }
+    match (want, got) {
+        (None, Err(e)) => {
+            if e.kind() != ErrorKind::Range {
+                set_fail(o, format!("{pre}/error-kind"), "RangeError".into(), err_str(e));
+            }
+        }
+        (None, Ok(_)) => set_fail(o, format!("{pre}/accepted"), "RangeError".into(), show_md(got)),
+        (Some(w), Err(_)) => set_fail(o, format!("{pre}/unexpected-error"), format!("{:?}", want_md_prints(w.0, w.1, w.2)[2]), show_md(got)),
+        (Some((ry, m, d)), Ok(v)) => {
+            if (v.iso_month(), v.iso_day()) != (m, d) {
+                return set_fail(o, format!("{pre}/fields"), format!("{:?}", (m, d)), format!("{:?}", (v.iso_month(), v.iso_day())));
+            }
+            let (wp, gp) = (want_md_prints(ry, m, d), md_prints(v));
+            if wp != gp || v.iso_year() as i64 != ry {
+                let what = if wp[0] != gp[0] || wp[1] != gp[1] { "print-short" } else { "reference-year" };
+                return set_fail(o, format!("{pre}/{what}"), format!("{wp:?}"), format!("{gp:?}"));
+            }
+            if v.to_string() != wp[0] {
+                return set_fail(o, format!("{pre}/display"), wp[0].clone(), v.to_string());
+            }
+            if v.month_code().as_str() != format!("M{:02}", m) {
+                return set_fail(o, format!("{pre}/month-code"), format!("M{m:02}"), v.month_code().as_str().to_string());
+            }
+            if let Some(c) = canon {
+                if (v == c) != (ry == 1972) {
+                    return set_fail(o, format!("{pre}/equality"), format!("== canonical: {}", ry == 1972), format!("{}", v == c));
+                }
+            }
+        }
+    }
+}
+
+// ------------------------------------------------------------------------------------------
+// ym-routes
+
+#[derive(Serialize, Deserialize, Debug, Clone)]
+pub struct YmRouteCase {
+    pub y: i64,
+    pub m: u8,
+    /// day used by the routes that go through a full date (1..=days in month)
+    pub day: u8,
+    /// time of day used by the date-time string route
+    pub ns: i128,
+    pub off_min: i32,
+    pub sep: u8,
+    pub zone: u8,
+}
+pub struct YmRouteSub;
+
+impl SubCheck for YmRouteSub {
+    type Case = YmRouteCase;
+    fn name(&self) -> &'static str {
+        "ym-routes"
+    }
+    fn eval(&self, c: &YmRouteCase) -> Outcome {
+        let (y, m) = (c.y, c.m);
+        let day = c.day.clamp(1, dim(y, m));
+        let in_range = ym_in_range(y, m);
+        let want = if in_range { Some((y, m, 1u8)) } else { None };
+        let near_limit = midx(y, m) - MIN_IDX < 12 || MAX_IDX - midx(y, m) < 12;
+        let mut o = Outcome::pass().nontrivial(day != 1 || c.ns != 0 || near_limit || (m == 2 && day == 29));
+        o = o.class(if in_range { "in-range" } else { "out-of-range" });
+        if near_limit {
+            o = o.class("within-a-year-of-limit-or-out");
+        }
+        if day != 1 {
+            o = o.class("route-day!=1");
+        }
+        if m == 2 && day == 29 {
+            o = o.class("feb-29");
+        }
+        if !(0..=9999).contains(&y) {
+            o = o.class("extended-year");
+        }
+        let yi = y as i32;
+        let canon = canon_ym(y, m);
+        judge_ym(&mut o, "C18/ym.route/ctor-none-reject", &canon, want, None);
+        let cref = canon.as_ref().ok();
+        let constrain = PlainYearMonth::new_with_overflow(yi, m, None, iso(), ArithmeticOverflow::Constrain);
+        judge_ym(&mut o, "C18/ym.route/ctor-none-constrain", &constrain, want, cref);
+        let one = PlainYearMonth::new_with_overflow(yi, m, Some(1), iso(), ArithmeticOverflow::Reject);
+        judge_ym(&mut o, "C18/ym.route/ctor-ref-1", &one, want, cref);
+
+        // strings
+        let ys = rfmt::year(y);
+        let s_short = format!("{}-{:02}", ys, m);
+        judge_ym(&mut o, "C18/ym.route/str-short", &PlainYearMonth::from_str(&s_short), want, cref);
+        let s_basic = format!("{}{:02}", ys, m);
+        judge_ym(&mut o, "C18/ym.route/str-basic", &PlainYearMonth::from_str(&s_basic), want, cref);
+        let s_six = format!("{}-{:02}", year_str(y, true), m);
+        judge_ym(&mut o, "C18/ym.route/str-six-digit-year", &PlainYearMonth::from_str(&s_six), want, cref);
+        let s_cal = format!("{}-{:02}[u-ca=iso8601]", ys, m);
+        judge_ym(&mut o, "C18/ym.route/str-short-calendar", &PlainYearMonth::from_str(&s_cal), want, cref);
+        let s_date = rfmt::date(y, m, day);
+        judge_ym(&mut o, "C18/ym.route/str-date", &PlainYearMonth::from_str(&s_date), want, cref);
+        let s_date_basic = format!("{}{:02}{:02}", ys, m, day);
+        judge_ym(&mut o, "C18/ym.route/str-date-basic", &PlainYearMonth::from_str(&s_date_basic), want, cref);
+        let s_dt = format!("{}{}", s_date, dt_tail(c.ns, c.sep, Some(c.off_min), c.zone, c.sep % 2 == 0));
+        judge_ym(&mut o, "C18/ym.route/str-datetime-offset", &PlainYearMonth::from_str(&s_dt), want, cref);
+        let s_dt2 = format!("{}{}", s_date, dt_tail(c.ns, c.sep.wrapping_add(1), None, c.zone.wrapping_add(1), c.sep % 2 == 1));
+        judge_ym(&mut o, "C18/ym.route/str-datetime", &PlainYearMonth::from_str(&s_dt2), want, cref);
+
+        // from a date (only where the date itself exists)
+        if date_in_range(to_days(y, m, day)) {
+            o = o.class("date-route");
+            match PlainDate::try_new(yi, m, day, iso()) {
+                Ok(d) => judge_ym(&mut o, "C18/ym.route/from-date", &d.to_plain_year_month(), want, cref),
+                Err(e) => set_fail(&mut o, "C18/ym.route/from-date/date-construct".into(), "valid date".into(), err_str(&e)),
+            }
+        }
+
+        // field records without a day
+        let p_m = PartialDate { year: Some(yi), month: Some(m), ..Default::default() };
+        let p_mc = PartialDate { year: Some(yi), month_code: Some(month_code(m)), ..Default::default() };
+        let p_both = PartialDate { year: Some(yi), month: Some(m), month_code: Some(month_code(m)), ..Default::default() };
+        for reject in [false, true] {
+            judge_ym(&mut o, "C18/ym.route/partial-month", &PlainYearMonth::from_partial(p_m.clone(), ovf(reject)), want, cref);
+            judge_ym(&mut o, "C18/ym.route/partial-month-code", &PlainYearMonth::from_partial(p_mc.clone(), ovf(reject)), want, cref);
+            judge_ym(&mut o, "C18/ym.route/partial-month+code", &PlainYearMonth::from_partial(p_both.clone(), ovf(reject)), want, cref);
+            judge_ym(&mut o, "C18/ym.route/calendar-partial", &iso().year_month_from_partial(&p_m, ovf(reject)), want, cref);
+        }
+
+        // with: receivers carry an explicit reference day, the result must not
+        let by = 2001 + y.rem_euclid(7);
+        let bm = m % 12 + 1;
+        if let Ok(base) = PlainYearMonth::new_with_overflow(by as i32, bm, Some(day.min(dim(by, bm))), iso(), ArithmeticOverflow::Reject) {
+            judge_ym(&mut o, "C18/ym.route/with-year+month", &base.with(p_m.clone(), None), want, cref);
+            judge_ym(&mut o, "C18/ym.route/with-year+month-code", &base.with(p_mc.clone(), Some(ArithmeticOverflow::Reject)), want, cref);
+        } else {
+            set_fail(&mut o, "C18/ym.route/with/base-construct".into(), "Ok".into(), format!("{by}-{bm}"));
+        }
+        if let Ok(base) = PlainYearMonth::new_with_overflow(by as i32, m, Some(day.min(dim(by, m))), iso(), ArithmeticOverflow::Reject) {
+            judge_ym(&mut o, "C18/ym.route/with-year", &base.with(PartialDate { year: Some(yi), ..Default::default() }, None), want, cref);
+        }
+        if ym_in_range(y, bm) {
+            if let Ok(base) = PlainYearMonth::new_with_overflow(yi, bm, Some(day.min(dim(y, bm))), iso(), ArithmeticOverflow::Reject) {
+                judge_ym(&mut o, "C18/ym.route/with-month", &base.with(PartialDate { month: Some(m), ..Default::default() }, None), want, cref);
+                // a day in the record is not a year-month field
+                judge_ym(&mut o, "C18/ym.route/with-month+day", &base.with(PartialDate { month: Some(m), day: Some(day), ..Default::default() }, None), want, cref);
+            }
+        }
+
+        // LAST (a recorded defect lives here): a field record that also carries a (valid) day
+        if !o.failed() {
+            let p_day = PartialDate { year: Some(yi), month: Some(m), day: Some(day), ..Default::default() };
+            for (label, got) in [
+                ("C18/ym.route/partial-with-day", PlainYearMonth::from_partial(p_day.clone(), ArithmeticOverflow::Constrain)),
+                ("C18/ym.route/calendar-partial-with-day", iso().year_month_from_partial(&p_day, ArithmeticOverflow::Reject)),
+            ] {
+                // defect model: the record's day is stored as the reference day
+                let kept = match &got {
+                    Ok(v) => in_range && day != 1 && ym_of(v) == (y, m) && hidden_day(v) == Some(day),
+                    Err(_) => false,
+                };
+                if kept {
+                    set_fail(&mut o, "C18/ym.route/partial-with-day/record-day-kept-as-reference-day".into(), want_ym_prints(y, m, 1)[2].clone(), show_ym(&got));
+                } else {
+                    judge_ym(&mut o, label, &got, want, cref);
+                }
+            }
+        }
+        o
+    }
+}
+
+fn ym_route_case_at(idx: i64, seed: u64, k: u64) -> YmRouteCase {
+    let (y, m) = from_midx(idx);
+    let h = hash64(&[seed.to_le_bytes(), (idx as u64).to_le_bytes(), k.to_le_bytes()].concat());
+    let l = dim(y, m);
+    let day = match h % 8 {
+        0 => 1,
+        1 => l,
+        2 => l.saturating_sub(1).max(1),
+        3 => 19.min(l),
+        4 => 13,
+        _ => 1 + ((h >> 8) % l as u64) as u8,
+    };
+    let ns = match (h >> 16) % 6 {
+        0 => 0,
+        1 => NS_PER_DAY - 1,
+        2 => ((h >> 24) % 86400) as i128 * 1_000_000_000,
+        3 => ((h >> 24) % 1440) as i128 * 60_000_000_000,
+        _ => ((h >> 20) as i128) % NS_PER_DAY,
+    };
+    let off = ((h >> 40) % (2 * 1439 + 1)) as i32 - 1439;
+    YmRouteCase { y, m, day, ns, off_min: off, sep: (h >> 52) as u8 % 6, zone: (h >> 56) as u8 % 4 }
+}
+
+fn ym_idx() -> BoxedStrategy<i64> {
+    gen::boxed_union(vec![
+        (4, (MIN_IDX..=MAX_IDX).boxed()),
+        (2, (1800i64 * 12..=2200 * 12).boxed()),
+        (2, (0i64..=36).prop_map(|k| MIN_IDX + k).boxed()),
+        (2, (0i64..=36).prop_map(|k| MAX_IDX - k).boxed()),
+        (1, (proptest::sample::select(vec![0i64, -1, 1, 9999, 10000, 1972, 1970, 2000, -400]), 0i64..12).prop_map(|(y, m)| y * 12 + m).boxed()),
+    ])
+}
+fn ym_route_case() -> BoxedStrategy<YmRouteCase> {
+    let idx = gen::boxed_union(vec![(6, ym_idx()), (1, (1i64..=30).prop_map(|k| MIN_IDX - k).boxed()), (1, (1i64..=30).prop_map(|k| MAX_IDX + k).boxed())]);
+    (idx, 1u8..=31, gen::ns_of_day(), -1439i32..=1439, 0u8..6, 0u8..4)
+        .prop_map(|(i, day, ns, off_min, sep, zone)| {
+            let (y, m) = from_midx(i);
+            YmRouteCase { y, m, day: day.min(dim(y, m)), ns, off_min, sep, zone }
+        })
+        .boxed()
+}
+
+// ------------------------------------------------------------------------------------------
+// ym-ctor: explicit reference day, impossible months, both overflow modes
+
+#[derive(Serialize, Deserialize, Debug, Clone)]
+pub struct YmCtorCase {
+    pub y: i64,
+    pub m: u8,
+    pub refday: Option<u8>,
+    pub reject: bool,
+}
+pub struct YmCtorSub;
+
+impl SubCheck for YmCtorSub {
+    type Case = YmCtorCase;
+    fn name(&self) -> &'static str {
+        "ym-ctor"
+    }
+    fn eval(&self, c: &YmCtorCase) -> Outcome {
+        let y = c.y;
+        let yi = y as i32;
+        let valid_month = (1..=12).contains(&c.m);
+        let mut o = Outcome::pass().nontrivial(c.refday.is_some() || !valid_month).class(if c.reject { "reject" } else { "constrain" });
+        if c.refday.is_some() {
+            o = o.class("explicit-reference-day");
+        }
+        if !valid_month {
+            o = o.class("impossible-month");
+        }
+        // low-level constructor: RegulateISODate(year, month, referenceDay ?? 1, overflow), then the year-month limits
+        let d_in = c.refday.unwrap_or(1);
+        let want = regulate(y, c.m, d_in, c.reject).and_then(|(m2, d2)| if ym_in_range(y, m2) { Some((y, m2, d2)) } else { None });
+        if let Some((_, _, d2)) = want {
+            if c.refday.is_some() && d2 != d_in {
+                o = o.class("reference-day-constrained");
+            }
+        } else {
+            o = o.class("rejected");
+        }
+        let canon = want.and_then(|(y2, m2, _)| canon_ym(y2, m2).ok());
+        let got = PlainYearMonth::new_with_overflow(yi, c.m, c.refday, iso(), ovf(c.reject));
+        judge_ym(&mut o, "C18/ym.ctor/new_with_overflow", &got, want, canon.as_ref());
+
+        // the string route has no overflow option: month 00 / 13.. are RangeErrors
+        if c.m <= 99 && y.abs() <= 999_999 && !c.reject {
+            let want_str = if valid_month && ym_in_range(y, c.m) { Some((y, c.m, 1u8)) } else { None };
+            let canon_str = want_str.and_then(|(a, b, _)| canon_ym(a, b).ok());
+            judge_ym(&mut o, "C18/ym.ctor/str-short", &PlainYearMonth::from_str(&format!("{}-{:02}", rfmt::year(y), c.m)), want_str, canon_str.as_ref());
+            let want_day = c.refday.and_then(|d| want_str.filter(|_| d >= 1 && d <= dim(y, c.m) && d <= 99));
+            if let Some(d) = c.refday.filter(|d| *d <= 99) {
+                judge_ym(&mut o, "C18/ym.ctor/str-date", &PlainYearMonth::from_str(&format!("{}-{:02}-{:02}", rfmt::year(y), c.m, d)), want_day, canon_str.as_ref());
+            }
+        }
+        // a field record with an impossible month (no day): constrain clamps, reject refuses
+        let want_rec = regulate(y, c.m, 1, c.reject).and_then(|(m2, _)| if ym_in_range(y, m2) { Some((y, m2, 1u8)) } else { None });
+        let canon_rec = want_rec.and_then(|(y2, m2, _)| canon_ym(y2, m2).ok());
+        if c.m == 0 {
+            // month 0 in a field record: Temporal refuses it before the overflow option is looked at
+            // (ToPositiveIntegerWithTruncation); the Rust record is a plain u8 - contract doubtful
+            o.unjudged = true;
+            o = o.class("record-month-0:unjudged");
+            let _ = PlainYearMonth::from_partial(PartialDate { year: Some(yi), month: Some(0), ..Default::default() }, ovf(c.reject));
+        } else {
+            let rec = PlainYearMonth::from_partial(PartialDate { year: Some(yi), month: Some(c.m), ..Default::default() }, ovf(c.reject));
+            judge_ym(&mut o, "C18/ym.ctor/partial-month", &rec, want_rec, canon_rec.as_ref());
+            // with({year, month}) on an unrelated receiver with a hidden day
+            if let Ok(base) = PlainYearMonth::new_with_overflow(2001, 6, Some(30), iso(), ArithmeticOverflow::Reject) {
+                let got = base.with(PartialDate { year: Some(yi), month: Some(c.m), ..Default::default() }, Some(ovf(c.reject)));
+                let clamped_away = c.m > 12 && !c.reject && want_rec.is_some() && matches!(&got, Err(e) if e.kind() == ErrorKind::Range);
+                if clamped_away && !o.failed() {
+                    // defect model (fixed in /repo by adcf30e; a recurrence shows up under this signature): `with` turned month > 12 into a month code before clamping
+                    set_fail(&mut o, "C18/ym.with/month>12-under-constrain-is-RangeError".into(), format!("{:?}", want_ym_prints(y, 12, 1)[2]), show_ym(&got));
+                } else {
+                    judge_ym(&mut o, "C18/ym.ctor/with-month", &got, want_rec, canon_rec.as_ref());
+                }
+            }
+        }
+        o
+    }
+}
+
+fn ym_ctor_case() -> BoxedStrategy<YmCtorCase> {
+    let y = gen::boxed_union(vec![
+        (4, (-271823i64..=275762).boxed()),
+        (2, prop_oneof![Just(-271821i64), Just(275760), Just(-271822), Just(275761), Just(0), Just(1972), Just(1900), Just(2000)].boxed()),
+        (1, prop_oneof![Just(i32::MIN as i64), Just(i32::MAX as i64), Just(-300000i64), Just(300000i64), (-2_000_000i64..=2_000_000)].boxed()),
+    ]);
+    let m = prop_oneof![6 => 1u8..=12, 1 => Just(0u8), 1 => 13u8..=15, 1 => any::<u8>()];
+    let rd = prop_oneof![2 => Just(None), 3 => (1u8..=31).prop_map(Some), 2 => (28u8..=32).prop_map(Some), 1 => Just(Some(0u8)), 1 => any::<u8>().prop_map(Some)];
+    (y, m, rd, any::<bool>()).prop_map(|(y, m, refday, reject)| YmCtorCase { y, m, refday, reject }).boxed()
+}
+
+// ------------------------------------------------------------------------------------------
+// ym-add
+
+#[derive(Serialize, Deserialize, Debug, Clone)]
+pub struct YmAddCase {
+    pub y: i64,
+    pub m: u8,
+    /// explicit reference day of the receiver (valid for the month) or None
+    pub refday: Option<u8>,
+    pub dur: Dur,
+    pub reject: bool,
+    pub subtract: bool,
+}
+pub struct YmAddSub;
+
+impl SubCheck for YmAddSub {
+    type Case = YmAddCase;
+    fn name(&self) -> &'static str {
+        "ym-add"
+    }
+    fn eval(&self, c: &YmAddCase) -> Outcome {
+        let (y, m) = (c.y, c.m);
+        let mut o = Outcome::pass();
+        let eff = if c.subtract { c.dur.negated() } else { c.dur };
+        let tdays = eff.time_ns() / NS_PER_DAY; // sign-uniform: truncation is unambiguous
+        let pure = eff.f[2] == 0 && eff.f[3] == 0 && eff.time_ns() == 0;
+        let ov = rov(c.reject);
+        // model A: plain-date arithmetic from the first of the month
+        let model_a = date_add(Ymd::new(y, m, 1), eff.f[0], eff.f[1], eff.f[2], eff.f[3] + tdays, ov);
+        // whole-month count without any date limit (only used around -271821-04, see below)
+        let ub_idx = midx(y, m) as i128 + eff.f[0] * 12 + eff.f[1];
+        let ub = if ub_idx >= MIN_IDX as i128 && ub_idx <= MAX_IDX as i128 { Some(from_midx(ub_idx as i64)) } else { None };
+        let min_involved = (y, m) == MIN_YM || ub == Some(MIN_YM);
+        let near_limit = match model_a {
+            Ok(r) => midx(r.y, r.m) - MIN_IDX < 12 || MAX_IDX - midx(r.y, r.m) < 12,
+            Err(_) => true,
+        };
+        o = o.nontrivial(c.refday.is_some_and(|d| d != 1) || near_limit || !pure);
+        o = o.class(if pure { "years-months-only" } else { "week/day/time-units" });
+        if c.refday.is_some_and(|d| d != 1) {
+            o = o.class("receiver-hidden-day!=1");
+        }
+        if near_limit {
+            o = o.class("result-within-a-year-of-limit-or-out");
+        }
+        if eff.sign() < 0 {
+            o = o.class("negative");
+        }
+        let recv = match PlainYearMonth::new_with_overflow(y as i32, m, c.refday, iso(), ArithmeticOverflow::Reject) {
+            Ok(v) => v,
+            Err(e) => return o.fail("C18/ym.add/receiver-construct", "valid year-month", err_str(&e)),
+        };
+        let d = match duration_from_dur(&c.dur) {
+            Ok(d) => d,
+            Err(e) => return o.fail("C18/ym.add/duration-construct", "valid duration", err_str(&e)),
+        };
+        let got = if c.subtract { recv.subtract(&d, ovf(c.reject)) } else { recv.add(&d, ovf(c.reject)) };
+        if let Err(e) = &got {
+            if e.kind() != ErrorKind::Range {
+                return o.fail("C18/ym.add/error-kind", "Ok or RangeError", err_str(e));
+            }
+        }
+        if pure {
+            if min_involved {
+                // The first of -271821-04 is not a representable date: Temporal (CalendarDateFromFields /
+                // CalendarDateAdd) answers RangeError, the bare month count would answer the month. Both accepted.
+                o = o.class("first-month-involved:RangeError-or-month");
+                match (&got, ub) {
+                    (Err(_), _) => {}
+                    (Ok(_), Some((uy, um))) => judge_ym(&mut o, "C18/ym.add/first-month", &got, Some((uy, um, 1)), canon_ym(uy, um).ok().as_ref()),
+                    (Ok(_), None) => judge_ym(&mut o, "C18/ym.add/first-month", &got, None, None),
+                }
+                return o;
+            }
+            let want = model_a.ok().map(|r| (r.y, r.m, 1u8));
+            let canon = want.and_then(|(a, b, _)| canon_ym(a, b).ok());
+            judge_ym(&mut o, "C18/ym.add", &got, want, canon.as_ref());
+            return o;
+        }
+        // week / day / time units: a RangeError (Temporal's current rule) or a canonical month that agrees with date
+        // arithmetic from day 1 (or, for negative durations, from the last day: the earlier draft rule)
+        let v = match &got {
+            Err(_) => return o.class("day-units:RangeError"),
+            Ok(v) => v,
+        };
+        o = o.class("day-units:Ok");
+        if (y, m) == MIN_YM {
+            o.unjudged = true;
+            return o.class("day-units-on-first-month:unjudged");
+        }
+        let model_b = if eff.sign() < 0 { date_add(Ymd::new(y, m, dim(y, m)), eff.f[0], eff.f[1], eff.f[2], eff.f[3] + tdays, ov) } else { model_a };
+        let cands: Vec<(i64, u8)> = [model_a, model_b].iter().filter_map(|r| r.ok().map(|x| (x.y, x.m))).collect();
+        if !cands.contains(&ym_of(v)) {
+            return o.fail("C18/ym.add/day-units/miscounted", format!("RangeError or one of {cands:?}"), show_ym(&got));
+        }
+        let hd = hidden_day(v);
+        if hd != Some(1) {
+            // defect model: the day of the intermediate date (day 1 + days) is stored as the reference day
+            let predicted = model_a.ok().filter(|r| (r.y, r.m) == ym_of(v)).map(|r| r.d);
+            if predicted.is_some() && hd == predicted {
+                return o.fail("C18/ym.add/day-units-leave-hidden-day", format!("RangeError or {}", want_ym_prints(v.iso_year() as i64, v.iso_month(), 1)[2]), show_ym(&got));
+            }
+            return o.fail("C18/ym.add/day-units/non-canonical", "reference day 01", show_ym(&got));
+        }
+        let (vy, vm) = ym_of(v);
+        judge_ym(&mut o, "C18/ym.add/day-units", &got, Some((vy, vm, 1)), canon_ym(vy, vm).ok().as_ref());
+        o
+    }
+}
+
+fn refday_for(y: i64, m: u8, kind: u8, raw: u8) -> Option<u8> {
+    let l = dim(y, m);
+    match kind % 8 {
+        0..=3 => None,
+        4 => Some(1),
+        5 | 6 => Some(raw.clamp(1, l)),
+        _ => Some(l - raw % 3),
+    }
+}
+
+fn add_dur() -> BoxedStrategy<Dur> {
+    let fld = |max: i128| -> BoxedStrategy<i128> { prop_oneof![4 => Just(0i128), 4 => 0i128..=3, 3 => 0i128..=40, 3 => 0i128..=max, 1 => 0i128..=max / 50].boxed() };
+    let big = prop_oneof![30 => Just(0i128), 1 => (-3i128..=3).prop_map(|k| (1i128 << 31) + k), 1 => (0i128..=3).prop_map(|k| (1i128 << 32) - 1 - k)];
+    (
+        any::<bool>(),
+        fld(550_000),
+        fld(6_600_000),
+        prop_oneof![8 => Just(0i128), 1 => 0i128..=5, 1 => 0i128..=29_000_000],
+        prop_oneof![8 => Just(0i128), 2 => 0i128..=62, 1 => 0i128..=201_000_000],
+        prop_oneof![10 => Just(0i128), 1 => 0i128..=100, 1 => 0i128..=5_000_000_000i128],
+        prop_oneof![12 => Just(0i128), 1 => (0i128..=3, 0i128..=2).prop_map(|(k, d)| (k * NS_PER_DAY + d * (NS_PER_DAY - 1)).max(0))],
+        big,
+    )
+        .prop_map(|(neg, y, mo, w, d, h, ns, big)| {
+            let mut f = [y, mo, w, d, h, 0, 0, 0, 0, gen::through_f64(ns)];
+            if big != 0 {
+                f[(big % 2) as usize] = big;
+            }
+            if neg {
+                for x in f.iter_mut() {
+                    *x = -*x;
+                }
+            }
+            Dur { f }
+        })
+        .prop_filter("valid", |d| d.valid())
+        .boxed()
+}
+
+fn ym_add_case() -> BoxedStrategy<YmAddCase> {
+    // half of the durations are aimed: they lead from the receiver to a chosen target month (+- a little)
+    let aimed = (ym_idx(), ym_idx(), -2i64..=2, any::<bool>()).prop_map(|(a, b, k, split)| {
+        let delta = b - a + k;
+        let f = if split { [(delta / 12) as i128, (delta % 12) as i128, 0, 0, 0, 0, 0, 0, 0, 0] } else { [0, delta as i128, 0, 0, 0, 0, 0, 0, 0, 0] };
+        (a, Dur { f })
+    });
+    let free = (ym_idx(), add_dur());
+    (prop_oneof![1 => aimed, 1 => free], 0u8..8, 1u8..=31, any::<bool>(), prop::bool::weighted(0.3))
+        .prop_map(|((i, dur), kind, raw, reject, subtract)| {
+            let (y, m) = from_midx(i);
+            // for `subtract` the aimed duration is negated so that the effective one still points at the target
+            let dur = if subtract { dur.negated() } else { dur };
+            YmAddCase { y, m, refday: refday_for(y, m, kind, raw), dur, reject, subtract }
+        })
+        .boxed()
+}
+
+// ------------------------------------------------------------------------------------------
+// ym-diff
+
+#[derive(Serialize, Deserialize, Debug, Clone, Copy, PartialEq, Eq)]
+pub enum OptUnit {
+    Absent,
+    Auto,
+    Is(U),
+}
+impl OptUnit {
+    fn to_api(self) -> Option<Unit> {
+        match self {
+            OptUnit::Absent => None,
+            OptUnit::Auto => Some(Unit::Auto),
+            OptUnit::Is(u) => Some(unit(u)),
+        }
+    }
+}
+#[derive(Serialize, Deserialize, Debug, Clone, Copy)]
+pub struct YmRef {
+    pub y: i64,
+    pub m: u8,
+    pub refday: Option<u8>,
+}
+#[derive(Serialize, Deserialize, Debug, Clone)]
+pub struct YmDiffCase {
+    pub a: YmRef,
+    pub b: YmRef,
+    pub largest: OptUnit,
+    pub smallest: OptUnit,
+    pub inc: Option<u32>,
+    pub mode: Option<Mode>,
+    pub since: bool,
+}
+pub struct YmDiffSub;
+
+/// GetDifferenceSettings for PlainYearMonth (DESIGN Appendix A): Err = RangeError
+fn resolve_units(l: OptUnit, s: OptUnit) -> Result<(U, U), ()> {
+    let allowed = |u: U| u == U::Year || u == U::Month;
+    if let OptUnit::Is(u) = l {
+        if !allowed(u) {
+            return Err(());
+        }
+    }
+    let sm = match s {
+        OptUnit::Auto => return Err(()),
+        OptUnit::Is(u) if !allowed(u) => return Err(()),
+        OptUnit::Is(u) => u,
+        OptUnit::Absent => U::Month,
+    };
+    let lg = match l {
+        OptUnit::Is(u) => u,
+        _ => U::Year.larger_of(sm),
+    };
+    if lg.idx() > sm.idx() {
+        return Err(());
+    }
+    Ok((lg, sm))
+}
+
+fn internal_fields(i: &Internal) -> [f64; 10] {
+    [i.y as f64, i.mo as f64, i.w as f64, i.d as f64, 0., 0., 0., 0., 0., 0.]
+}
+fn neg_fields(f: [f64; 10]) -> [f64; 10] {
+    let mut o = f;
+    for x in o.iter_mut() {
+        if *x != 0.0 {
+            *x = -*x;
+        }
+    }
+    o
+}
+/// `stored_dates`: model of the recorded defect (the stored dates, hidden day included, are differenced): the
+/// implementation then also range-checks the intermediate date `a + years + months` (day constrained).
+fn diff_model(a: Ymd, b: Ymd, lg: U, sm: U, inc: i128, mode: Mode, stored_dates: bool) -> Result<Internal, RErr> {
+    if a == b {
+        return Ok(Internal { y: 0, mo: 0, w: 0, d: 0, t: 0 });
+    }
+    if stored_dates {
+        let (y, mo, _, _) = date_diff(a, b, lg);
+        let (iy, im) = balance_ym(a.y + y, a.m as i64 + mo);
+        if !date_in_range(to_days(iy, im, a.d.min(dim(iy, im)))) {
+            return Err(RErr::Range);
+        }
+    }
+    if sm == U::Month && inc == 1 {
+        // no rounding step at all (step 16 of DifferenceTemporalPlainYearMonth)
+        let (y, mo, w, d) = date_diff(a, b, lg);
+        return Ok(Internal { y: y as i128, mo: mo as i128, w: w as i128, d: d as i128, t: 0 });
+    }
+    diff_with_rounding(Dt { day: a.n(), ns: 0 }, Dt { day: b.n(), ns: 0 }, lg, inc, sm, mode)
+}
+
+impl SubCheck for YmDiffSub {
+    type Case = YmDiffCase;
+    fn name(&self) -> &'static str {
+        "ym-diff"
+    }
+    fn eval(&self, c: &YmDiffCase) -> Outcome {
+        let mut o = Outcome::pass();
+        let hidden_a = c.a.refday.unwrap_or(1);
+        let hidden_b = c.b.refday.unwrap_or(1);
+        let hidden = hidden_a != 1 || hidden_b != 1;
+        let (ia, ib) = (midx(c.a.y, c.a.m), midx(c.b.y, c.b.m));
+        let near_limit = [ia, ib].iter().any(|i| i - MIN_IDX < 12 || MAX_IDX - i < 12);
+        let rounding = !(matches!(c.smallest, OptUnit::Absent | OptUnit::Is(U::Month)) && c.inc.unwrap_or(1) == 1);
+        let units = resolve_units(c.largest, c.smallest);
+        o = o.nontrivial(hidden || near_limit || (rounding && ia != ib));
+        if hidden {
+            o = o.class("explicit-reference-day!=1");
+        }
+        if near_limit {
+            o = o.class("operand-within-a-year-of-limit");
+        }
+        if units.is_ok() && rounding {
+            o = o.class("rounding");
+        }
+        o = o.class(if c.since { "since" } else { "until" });
+        let build = |r: &YmRef| PlainYearMonth::new_with_overflow(r.y as i32, r.m, r.refday, iso(), ArithmeticOverflow::Reject);
+        let (pa, pb) = match (build(&c.a), build(&c.b)) {
+            (Ok(a), Ok(b)) => (a, b),
+            (a, b) => return o.fail("C18/ym.diff/operand-construct", "two valid year-months", format!("{} {}", show_ym(&a), show_ym(&b))),
+        };
+        let st = diff_settings(c.largest.to_api(), c.smallest.to_api(), c.inc, c.mode.map(mode));
+        let got = if c.since { pa.since(&pb, st) } else { pa.until(&pb, st) };
+        let got_s = match &got {
+            Ok(d) => format!("Ok({:?})", &duration_fields(d)[..4]),
+            Err(e) => err_str(e),
+        };
+        if let Err(e) = &got {
+            if e.kind() != ErrorKind::Range {
+                return o.fail("C18/ym.diff/error-kind", "Ok or RangeError", got_s);
+            }
+        }
+        let (lg, sm) = match units {
+            Err(()) => {
+                o = o.class("options-rejected");
+                if matches!(c.largest, OptUnit::Is(U::Week | U::Day)) || matches!(c.smallest, OptUnit::Is(U::Week | U::Day)) {
+                    o = o.class("week/day-unit").nontrivial(true);
+                }
+                if got.is_ok() {
+                    return o.fail("C18/ym.diff/options-accepted", "RangeError", got_s);
+                }
+                return o;
+            }
+            Ok(u) => u,
+        };
+        let inc = c.inc.unwrap_or(1) as i128;
+        let m_eff = {
+            let m0 = c.mode.unwrap_or(Mode::Trunc);
+            if c.since {
+                m0.negated()
+            } else {
+                m0
+            }
+        };
+        let signed = |r: Result<Internal, RErr>| r.map(|i| if c.since { neg_fields(internal_fields(&i)) } else { internal_fields(&i) });
+        let want = signed(diff_model(Ymd::new(c.a.y, c.a.m, 1), Ymd::new(c.b.y, c.b.m, 1), lg, sm, inc, m_eff, false));
+        let want_s = match &want {
+            Ok(f) => format!("Ok({:?})", &f[..4]),
+            Err(_) => "RangeError".to_string(),
+        };
+        let gotf = got.as_ref().ok().map(duration_fields);
+        let min_involved = ia == MIN_IDX || ib == MIN_IDX;
+        let agrees = match (&want, &gotf) {
+            (Ok(w), Some(g)) => fields_eq(w, g),
+            (Err(_), None) => true,
+            _ => false,
+        };
+        if min_involved {
+            // the first of -271821-04 is not a representable date: Temporal throws at CalendarDateFromFields;
+            // accepted: RangeError, or the value the model gives when it can compute one
+            o = o.class("first-month-operand:RangeError-or-value");
+            if got.is_err() || agrees {
+                return o;
+            }
+            if want.is_err() {
+                o.unjudged = true;
+                return o.class("first-month-operand:model-has-no-value:unjudged");
+            }
+        }
+        if !agrees {
+            if hidden {
+                // defect model: the stored dates (with their hidden days) are differenced instead of the first-of-months
+                let pred = signed(diff_model(Ymd::new(c.a.y, c.a.m, hidden_a), Ymd::new(c.b.y, c.b.m, hidden_b), lg, sm, inc, m_eff, true));
+                let as_predicted = match (&pred, &gotf) {
+                    (Ok(p), Some(g)) => fields_eq(p, g),
+                    (Err(_), None) => true,
+                    _ => false,
+                };
+                if as_predicted {
+                    return o.fail("C18/ym.diff/hidden-reference-day-used", want_s, got_s);
+                }
+            }
+            let sig = match (&want, &gotf) {
+                (Ok(_), Some(g)) if g[2..].iter().any(|v| *v != 0.0) => "C18/ym.diff/day-or-week-part",
+                (Ok(_), Some(_)) => "C18/ym.diff/mismatch",
+                (Ok(_), None) => "C18/ym.diff/unexpected-error",
+                _ => "C18/ym.diff/accepted",
+            };
+            return o.fail(sig, want_s, got_s);
+        }
+        // model-free law on canonical operands without rounding: a + (a until b) == b, canonical
+        if let (Ok(dur), false, false, false) = (&got, rounding, hidden, min_involved) {
+            let back = if c.since { pa.subtract(dur, ArithmeticOverflow::Constrain) } else { pa.add(dur, ArithmeticOverflow::Constrain) };
+            let canon_b = canon_ym(c.b.y, c.b.m).ok();
+            judge_ym(&mut o, "C18/ym.diff/law-add-until", &back, Some((c.b.y, c.b.m, 1)), canon_b.as_ref());
+        }
+        o
+    }
+}
+
+fn ym_pair() -> BoxedStrategy<(i64, i64)> {
+    let near = (
+        ym_idx(),
+        prop_oneof![(-3i64..=3).boxed(), (-40i64..=40).boxed(), (-40i64..=40).prop_map(|k| k * 12).boxed(), (-3000i64..=3000).boxed(), (-7_000_000i64..=7_000_000).boxed()],
+    )
+        .prop_map(|(a, d)| (a, (a + d).clamp(MIN_IDX, MAX_IDX)));
+    gen::boxed_union(vec![(3, near.boxed()), (2, (ym_idx(), ym_idx()).boxed())])
+}
+
+fn ym_diff_case() -> BoxedStrategy<YmDiffCase> {
+    let largest = prop_oneof![8 => Just(OptUnit::Absent), 3 => Just(OptUnit::Auto), 8 => Just(OptUnit::Is(U::Year)), 6 => Just(OptUnit::Is(U::Month)),
+        1 => prop_oneof![Just(U::Week), Just(U::Day)].prop_map(OptUnit::Is), 1 => gen::unit_in(4, 9).prop_map(OptUnit::Is)];
+    let smallest = prop_oneof![9 => Just(OptUnit::Absent), 8 => Just(OptUnit::Is(U::Year)), 8 => Just(OptUnit::Is(U::Month)),
+        1 => prop_oneof![Just(U::Week), Just(U::Day)].prop_map(OptUnit::Is), 1 => prop_oneof![3 => gen::unit_in(4, 9).prop_map(OptUnit::Is), 1 => Just(OptUnit::Auto)]];
+    let inc = prop_oneof![4 => Just(None), 2 => Just(Some(1u32)), 4 => (2u32..=13).prop_map(Some), 2 => (14u32..=2000).prop_map(Some),
+        1 => prop_oneof![Just(600_000u32), Just(1_000_000_000u32), 100_000u32..=7_000_000].prop_map(Some)];
+    let md = prop_oneof![1 => Just(None), 5 => gen::mode().prop_map(Some)];
+    (ym_pair(), (0u8..8, 1u8..=31, 0u8..8, 1u8..=31, prop::bool::weighted(0.4)), largest, smallest, inc, md, any::<bool>())
+        .prop_map(|((ia, ib), (ka, ra, kb, rb, with_hidden), largest, smallest, inc, mode, since)| {
+            let (ay, am) = from_midx(ia);
+            let (by, bm) = from_midx(ib);
+            // 60 %: both operands canonical (None or an explicit 1), so the arithmetic itself is compared
+            let (ka, kb) = if with_hidden { (ka, kb) } else { (ka % 2 * 4, kb % 2 * 4) };
+            YmDiffCase {
+                a: YmRef { y: ay, m: am, refday: refday_for(ay, am, ka, ra) },
+                b: YmRef { y: by, m: bm, refday: refday_for(by, bm, kb, rb) },
+                largest,
+                smallest,
+                inc,
+                mode,
+                since,
+            }
+        })
+        .boxed()
+}
+
+// ------------------------------------------------------------------------------------------
+// md-routes
+
+#[derive(Serialize, Deserialize, Debug, Clone)]
+pub struct MdRouteCase {
+    pub m: u8,
+    pub d: u8,
+    /// year used by the routes that go through a full date; (y, m, d) is a valid date
+    pub y: i64,
+    pub ns: i128,
+    pub off_min: i32,
+    pub sep: u8,
+    pub zone: u8,
+}
+pub struct MdRouteSub;
+
+impl SubCheck for MdRouteSub {
+    type Case = MdRouteCase;
+    fn name(&self) -> &'static str {
+        "md-routes"
+    }
+    fn eval(&self, c: &MdRouteCase) -> Outcome {
+        let (m, d, y) = (c.m, c.d, c.y);
+        let want = Some((1972i64, m, d));
+        let feb29 = m == 2 && d == 29;
+        let mut o = Outcome::pass().nontrivial(y != 1972 || c.ns != 0 || feb29).class(if feb29 { "feb-29" } else { "other-day" });
+        if y != 1972 {
+            o = o.class("route-year!=1972");
+        }
+        if c.ns != 0 {
+            o = o.class("route-time!=0");
+        }
+        let canon = PlainMonthDay::new_with_overflow(m, d, iso(), ArithmeticOverflow::Reject, None);
+        judge_md(&mut o, "C18/md.route/ctor-none-reject", &canon, want, None);
+        let cref = canon.as_ref().ok();
+        judge_md(&mut o, "C18/md.route/ctor-none-constrain", &PlainMonthDay::new_with_overflow(m, d, iso(), ArithmeticOverflow::Constrain, None), want, cref);
+        judge_md(&mut o, "C18/md.route/ctor-ref-1972", &PlainMonthDay::new_with_overflow(m, d, iso(), ArithmeticOverflow::Reject, Some(1972)), want, cref);
+        // strings
+        judge_md(&mut o, "C18/md.route/str-short", &PlainMonthDay::from_str(&format!("{:02}-{:02}", m, d)), want, cref);
+        judge_md(&mut o, "C18/md.route/str-dashes", &PlainMonthDay::from_str(&format!("--{:02}-{:02}", m, d)), want, cref);
+        judge_md(&mut o, "C18/md.route/str-basic", &PlainMonthDay::from_str(&format!("{:02}{:02}", m, d)), want, cref);
+        judge_md(&mut o, "C18/md.route/str-dashes-basic", &PlainMonthDay::from_str(&format!("--{:02}{:02}", m, d)), want, cref);
+        judge_md(&mut o, "C18/md.route/str-short-calendar", &PlainMonthDay::from_str(&format!("{:02}-{:02}[u-ca=iso8601]", m, d)), want, cref);
+        let s_date = rfmt::date(y, m, d);
+        judge_md(&mut o, "C18/md.route/str-date", &PlainMonthDay::from_str(&s_date), want, cref);
+        judge_md(&mut o, "C18/md.route/str-date-basic", &PlainMonthDay::from_str(&format!("{}{:02}{:02}", rfmt::year(y), m, d)), want, cref);
+        let s_dt = format!("{}{}", s_date, dt_tail(c.ns, c.sep, Some(c.off_min), c.zone, c.sep % 2 == 0));
+        judge_md(&mut o, "C18/md.route/str-datetime-offset", &PlainMonthDay::from_str(&s_dt), want, cref);
+        let s_dt2 = format!("{}{}", s_date, dt_tail(c.ns, c.sep.wrapping_add(1), None, c.zone.wrapping_add(1), c.sep % 2 == 1));
+        judge_md(&mut o, "C18/md.route/str-datetime", &PlainMonthDay::from_str(&s_dt2), want, cref);
+        // from a date
+        match PlainDate::try_new(y as i32, m, d, iso()) {
+            Ok(pd) => judge_md(&mut o, "C18/md.route/from-date", &pd.to_plain_month_day(), want, cref),
+            Err(e) => set_fail(&mut o, "C18/md.route/from-date/date-construct".into(), "valid date".into(), err_str(&e)),
+        }
+        // field records with a year (the day is judged in that year, the result carries 1972)
+        let yi = y as i32;
+        for reject in [false, true] {
+            let p = PartialDate { year: Some(yi), month: Some(m), day: Some(d), ..Default::default() };
+            judge_md(&mut o, "C18/md.route/partial-year+month", &iso().month_day_from_partial(&p, ovf(reject)), want, cref);
+            let p = PartialDate { year: Some(yi), month_code: Some(month_code(m)), day: Some(d), ..Default::default() };
+            judge_md(&mut o, "C18/md.route/partial-year+month-code", &iso().month_day_from_partial(&p, ovf(reject)), want, cref);
+            let p = PartialDate { year: Some(yi), month: Some(m), month_code: Some(month_code(m)), day: Some(d), ..Default::default() };
+            judge_md(&mut o, "C18/md.route/partial-year+month+code", &iso().month_day_from_partial(&p, ovf(reject)), want, cref);
+        }
+        // LAST (a recorded defect lives here): field records without a year - the ISO calendar needs none
+        if !o.failed() {
+            for (label, p) in [
+                ("C18/md.route/partial-month", PartialDate { month: Some(m), day: Some(d), ..Default::default() }),
+                ("C18/md.route/partial-month-code", PartialDate { month_code: Some(month_code(m)), day: Some(d), ..Default::default() }),
+            ] {
+                let got = iso().month_day_from_partial(&p, ArithmeticOverflow::Reject);
+                judge_md_record_without_year(&mut o, label, &got, want, cref);
+            }
+        }
+        o
+    }
+}
+
+/// field record without year: defect model = TypeError "Required fields missing to determine an era and year."
+fn judge_md_record_without_year(o: &mut Outcome, label: &str, got: &TemporalResult<PlainMonthDay>, want: Option<(i64, u8, u8)>, canon: Option<&PlainMonthDay>) {
+    if o.failed() {
+        return;
+    }
+    if let Err(e) = got {
+        if e.kind() == ErrorKind::Type && e.message().contains("era and year") {
+            let exp = match want {
+                Some(w) => want_md_prints(w.0, w.1, w.2)[2].clone(),
+                None => "RangeError".into(),
+            };
+            return set_fail(o, "C18/md.partial/record-without-year-is-TypeError".into(), exp, show_md(got));
+        }
+    }
+    judge_md(o, label, got, want, canon);
+}
+
+const MD_YEARS: [i64; 12] = [1972, 1973, 2024, 2023, 2000, 1900, 0, -1, 9999, 10000, -271820, 275759];
+
+fn md_route_cases(seed: u64) -> Vec<MdRouteCase> {
+    let mut v = vec![];
+    for m in 1u8..=12 {
+        for d in 1u8..=dim(1972, m) {
+            for (yi, y) in MD_YEARS.iter().enumerate() {
+                if d > dim(*y, m) {
+                    continue;
+                }
+                for k in 0..3u64 {
+                    let h = hash64(&[seed.to_le_bytes(), [m, d, yi as u8, k as u8, 0, 0, 0, 0]].concat());
+                    let ns = match k {
+                        0 => 0,
+                        1 => NS_PER_DAY - 1 - (h % 1000) as i128,
+                        _ => (h >> 8) as i128 % NS_PER_DAY,
+                    };
+                    v.push(MdRouteCase { m, d, y: *y, ns, off_min: ((h >> 40) % 2879) as i32 - 1439, sep: (h >> 52) as u8 % 6, zone: (h >> 56) as u8 % 4 });
+                }
+            }
+        }
+    }
+    v
+}
+
+// ------------------------------------------------------------------------------------------
+// md-ctor: impossible days / months, overflow, explicit reference year, field records
+
+#[derive(Serialize, Deserialize, Debug, Clone)]
+pub struct MdCtorCase {
+    pub m: u8,
+    pub d: u8,
+    pub reject: bool,
+    pub ref_year: Option<i64>,
+    /// year of the field-record route (None = record without year)
+    pub rec_year: Option<i64>,
+}
+pub struct MdCtorSub;
+
+impl SubCheck for MdCtorSub {
+    type Case = MdCtorCase;
+    fn name(&self) -> &'static str {
+        "md-ctor"
+    }
+    fn eval(&self, c: &MdCtorCase) -> Outcome {
+        let ry = c.ref_year.unwrap_or(1972);
+        let possible = regulate(1972, c.m, c.d, true).is_some();
+        let mut o = Outcome::pass().nontrivial(c.ref_year.is_some() || !possible || (c.m == 2 && c.d == 29)).class(if c.reject { "reject" } else { "constrain" });
+        o = o.class(if possible { "possible-in-1972" } else { "impossible-in-1972" });
+        if c.ref_year.is_some() {
+            o = o.class("explicit-reference-year");
+        }
+        if c.m == 2 && c.d == 29 {
+            o = o.class("feb-29");
+        }
+        // low-level constructor: RegulateISODate(referenceYear ?? 1972, month, day, overflow), then the date limits
+        let want = regulate(ry, c.m, c.d, c.reject).and_then(|(m2, d2)| if date_in_range(to_days(ry, m2, d2)) { Some((ry, m2, d2)) } else { None });
+        let canon = want.and_then(|(_, m2, d2)| PlainMonthDay::new_with_overflow(m2, d2, iso(), ArithmeticOverflow::Reject, None).ok());
+        let got = PlainMonthDay::new_with_overflow(c.m, c.d, iso(), ovf(c.reject), c.ref_year.map(|v| v as i32));
+        judge_md(&mut o, "C18/md.ctor/new_with_overflow", &got, want, canon.as_ref());
+
+        // the string routes have no overflow option: an impossible month-day (judged in the leap reference year for
+        // the short forms, in its own year for full dates) is a RangeError
+        if c.m <= 99 && c.d <= 99 && !c.reject {
+            let want_s = regulate(1972, c.m, c.d, true).map(|(a, b)| (1972i64, a, b));
+            let canon_s = want_s.and_then(|(_, a, b)| PlainMonthDay::new_with_overflow(a, b, iso(), ArithmeticOverflow::Reject, None).ok());
+            judge_md(&mut o, "C18/md.ctor/str-short", &PlainMonthDay::from_str(&format!("{:02}-{:02}", c.m, c.d)), want_s, canon_s.as_ref());
+            judge_md(&mut o, "C18/md.ctor/str-dashes-basic", &PlainMonthDay::from_str(&format!("--{:02}{:02}", c.m, c.d)), want_s, canon_s.as_ref());
+            let fy = c.rec_year.unwrap_or(1972);
+            let want_f = regulate(fy, c.m, c.d, true).map(|(a, b)| (1972i64, a, b));
+            judge_md(&mut o, "C18/md.ctor/str-date", &PlainMonthDay::from_str(&format!("{}-{:02}-{:02}", rfmt::year(fy), c.m, c.d)), want_f, canon_s.as_ref());
+        }
+        // field record {year?, month, day}: the day is regulated in the record's year (1972 without one), the result
+        // carries reference year 1972 (CalendarMonthDayToISOReferenceDate)
+        if c.m == 0 || c.d == 0 {
+            o.unjudged = true;
+            o = o.class("record-month-or-day-0:unjudged");
+            let _ = iso().month_day_from_partial(&PartialDate { year: c.rec_year.map(|v| v as i32), month: Some(c.m), day: Some(c.d), ..Default::default() }, ovf(c.reject));
+            return o;
+        }
+        let wy = c.rec_year.unwrap_or(1972);
+        let want_rec = regulate(wy, c.m, c.d, c.reject).map(|(m2, d2)| (1972i64, m2, d2));
+        let canon_rec = want_rec.and_then(|(_, m2, d2)| PlainMonthDay::new_with_overflow(m2, d2, iso(), ArithmeticOverflow::Reject, None).ok());
+        let p = PartialDate { year: c.rec_year.map(|v| v as i32), month: Some(c.m), day: Some(c.d), ..Default::default() };
+        let got = iso().month_day_from_partial(&p, ovf(c.reject));
+        if c.rec_year.is_none() {
+            judge_md_record_without_year(&mut o, "C18/md.ctor/partial-month", &got, want_rec, canon_rec.as_ref());
+        } else {
+            judge_md(&mut o, "C18/md.ctor/partial-year+month", &got, want_rec, canon_rec.as_ref());
+            // month code route: codes M01..M12 only exist; M13+ is a RangeError in both modes
+            if c.m <= 99 {
+                let want_code = if c.m <= 12 { want_rec } else { None };
+                let p = PartialDate { year: c.rec_year.map(|v| v as i32), month_code: Some(month_code(c.m)), day: Some(c.d), ..Default::default() };
+                judge_md(&mut o, "C18/md.ctor/partial-year+month-code", &iso().month_day_from_partial(&p, ovf(c.reject)), want_code, canon_rec.as_ref());
+            }
+        }
+        o
+    }
+}
+
+fn md_ctor_cases() -> Vec<MdCtorCase> {
+    let mut v = vec![];
+    let months: Vec<u8> = (0u8..=14).chain([255u8]).collect();
+    let days: Vec<u8> = (0u8..=33).chain([255u8]).collect();
+    let refs: [Option<i64>; 9] = [None, Some(1972), Some(1973), Some(2000), Some(1900), Some(-271821), Some(275760), Some(-271822), Some(275761)];
+    let recs: [Option<i64>; 3] = [None, Some(1972), Some(2023)];
+    for m in &months {
+        for d in &days {
+            for reject in [false, true] {
+                for (i, r) in refs.iter().enumerate() {
+                    // the record route does not depend on the reference year: the three record years rotate
+                    v.push(MdCtorCase { m: *m, d: *d, reject, ref_year: *r, rec_year: recs[i % 3] });
+                }
+            }
+        }
+    }
+    v
+}
+
+// ------------------------------------------------------------------------------------------
+// md-with
+
+#[derive(Serialize, Deserialize, Debug, Clone)]
+pub struct MdWithCase {
+    pub m: u8,
+    pub d: u8,
+    pub pm: Option<u8>,
+    pub pd: Option<u8>,
+    pub py: Option<i64>,
+    pub reject: bool,
+}
+pub struct MdWithSub;
+impl SubCheck for MdWithSub {
+    type Case = MdWithCase;
+    fn name(&self) -> &'static str {
+        "md-with"
+    }
+    fn eval(&self, c: &MdWithCase) -> Outcome {
+        let mut o = Outcome::pass().nontrivial(true);
+        let recv = match PlainMonthDay::new_with_overflow(c.m, c.d, iso(), ArithmeticOverflow::Reject, None) {
+            Ok(v) => v,
+            Err(e) => return o.fail("C18/md.with/receiver-construct", "valid month-day", err_str(&e)),
+        };
+        let p = PartialDate { year: c.py.map(|v| v as i32), month: c.pm, day: c.pd, ..Default::default() };
+        let got = recv.with(p, ovf(c.reject));
+        if let Err(e) = &got {
+            if e.kind() == ErrorKind::Generic && e.message().contains("Not yet implemented") {
+                o.unjudged = true;
+                return o.class("with:not-implemented:unjudged");
+            }
+        }
+        // merge: record fields win, the receiver supplies month and day, the year is only used to judge the day
+        let (m2, d2) = (c.pm.unwrap_or(c.m), c.pd.unwrap_or(c.d));
+        let want = regulate(c.py.unwrap_or(1972), m2, d2, c.reject).map(|(a, b)| (1972i64, a, b));
+        let canon = want.and_then(|(_, a, b)| PlainMonthDay::new_with_overflow(a, b, iso(), ArithmeticOverflow::Reject, None).ok());
+        judge_md(&mut o, "C18/md.with", &got, want, canon.as_ref());
+        o.class("with:implemented")
+    }
+}
+fn md_with_cases() -> Vec<MdWithCase> {
+    let mut v = vec![];
+    for (m, d) in [(2u8, 29u8), (1, 31), (12, 31), (4, 30), (2, 28)] {
+        for pm in [None, Some(1u8), Some(2), Some(4), Some(12), Some(13)] {
+            for pd in [None, Some(1u8), Some(28), Some(29), Some(30), Some(31), Some(32)] {
+                for py in [None, Some(2023i64), Some(2024)] {
+                    if pm.is_none() && pd.is_none() {
+                        continue; // a record without any month-day field is C17's business
+                    }
+                    for reject in [false, true] {
+                        v.push(MdWithCase { m, d, pm, pd, py, reject });
+                    }
+                }
+            }
+        }
+    }
+    v
+}
+
+// ------------------------------------------------------------------------------------------
+
+pub fn run(ctx: &mut Ctx) {
+    ctx.rule = "ym-routes: every year-month of -271823-01..+275762-12 (thorough: all 6.6e6; quick: every 17th plus dense windows at both limits, year 0, 9999/10000, 1970-2030), each built through 25+ routes (4 short strings, full date / basic date / 2 date-time strings with a seed-derived day, time, offset, separator and annotations, PlainDate::to_plain_year_month, from_partial x3 x2 overflow, Calendar::year_month_from_partial, new_with_overflow None/Some(1), with x5 on receivers that carry a hidden day, record with a day) and compared with the canonical value (==, compare_iso, four DisplayCalendar prints, Display, month code) or RangeError outside the limits, plus a proptest stream of the same case type; ym-ctor: RegulateISODate + limits for explicit reference days 0..=255, months 0..=255, both overflow modes (enumerated block + generated years incl. i32 extremes); ym-add: generated (receiver with optional explicit reference day, valid duration up to 5.5e5 years / 6.6e6 months both signs, half of them aimed at a chosen target month, overflow, add|subtract) against AddISODate from day 1; ym-diff: generated pairs (near/far, up to the whole range) x largest/smallest/increment/mode/until|since against DifferenceISODate / exact-progress rounding between the first-of-months, option matrix incl. week/day/time/auto units; md-routes: all 366 month-days x 12 route years x 3 times (exhaustive) through 20 routes; md-ctor: months 0..=14,255 x days 0..=33,255 x overflow x 9 reference years x field records (exhaustive); md-with. non-trivial = the route goes through a day != 1 or a time != 00:00 (month-days: a year != 1972), an explicit reference is given, the month or the result lies within a year of a limit (or outside), week/day/time units or rounding are involved, or February 29.".into();
+    ctx.assumptions.push("add with non-zero weeks/days/time units: a RangeError, or a canonical month equal to date arithmetic from day 1 (negative durations: also from the last day, the earlier draft rule) is accepted; only non-canonical or miscounted results are flagged (Temporal changed this rule between drafts)".into());
+    ctx.assumptions.push("arithmetic that starts from, ends at or compares with -271821-04: the first of that month is not a representable date, Temporal answers RangeError (CalendarDateFromFields / CalendarDateAdd); the check accepts RangeError or the exact month count there".into());
+    ctx.assumptions.push("explicit reference: equal to the canonical value iff the chosen hidden part is the canonical one (day 1 / year 1972), as Temporal's equals compares the whole ISO date; short prints never show it, always/critical prints show it".into());
+    ctx.note("unjudged: month 0 / day 0 inside a field record (Temporal refuses them before the overflow option; the Rust record is a bare u8); PlainMonthDay::with while it returns 'Not yet implemented'; day units added to -271821-04; rounding with a -271821-04 operand where the model itself has no value");
+    let t = ctx.tier;
+    let seed = ctx.seed;
+
+    // ym-routes: walk
+    let lo = midx(-271823, 1);
+    let hi = midx(275762, 12);
+    if t == Tier::Thorough {
+        let n = (hi - lo + 1) as u64;
+        ctx.run_enum(&YmRouteSub, n, &|i| ym_route_case_at(lo + i as i64, seed, 0), true);
+    } else {
+        let mut idx: Vec<i64> = (lo..=hi).step_by(17).collect();
+        for (a, b) in [(lo, MIN_IDX + 120), (MAX_IDX - 120, hi), (midx(-2, 1), midx(2, 12)), (midx(9998, 1), midx(10001, 12)), (midx(1970, 1), midx(2030, 12))] {
+            idx.extend(a..=b);
+        }
+        let n = idx.len() as u64;
+        ctx.run_enum(&YmRouteSub, n, &|i| ym_route_case_at(idx[i as usize], seed, 1), false);
+    }
+    ctx.run_prop(&YmRouteSub, &ym_route_case, t.pick(150_000, 2_000_000));
+
+    // ym-ctor: enumerated block + generated
+    let ys: [i64; 7] = [1972, 2023, 2024, -271821, 275760, -271822, 275761];
+    let n_block = ys.len() as u64 * 16 * 36 * 2;
+    ctx.run_enum(
+        &YmCtorSub,
+        n_block,
+        &|i| {
+            let reject = i % 2 == 1;
+            let r = (i / 2) % 36; // 0 = None, 1..=34 = Some(0..=33), 35 = Some(255)
+            let mi = (i / 72) % 16; // 0..=14, 15 = 255
+            let y = ys[(i / (72 * 16)) as usize];
+            YmCtorCase { y, m: if mi == 15 { 255 } else { mi as u8 }, refday: if r == 0 { None } else if r == 35 { Some(255) } else { Some((r - 1) as u8) }, reject }
+        },
+        false,
+    );
+    ctx.run_prop(&YmCtorSub, &ym_ctor_case, t.pick(300_000, 5_000_000));
+
+    ctx.run_prop(&YmAddSub, &ym_add_case, t.pick(3_000_000, 20_000_000));
+    ctx.run_prop(&YmDiffSub, &ym_diff_case, t.pick(2_500_000, 20_000_000));
+
+    let mds = md_route_cases(seed);
+    ctx.run_enum(&MdRouteSub, mds.len() as u64, &|i| mds[i as usize].clone(), true);
+    let mdc = md_ctor_cases();
+    ctx.run_enum(&MdCtorSub, mdc.len() as u64, &|i| mdc[i as usize].clone(), true);
+    let mdw = md_with_cases();
+    ctx.run_enum(&MdWithSub, mdw.len() as u64, &|i| mdw[i as usize].clone(), true);
+}
+
+pub fn replay(ctx: &mut Ctx, sub: &str, case: &Value) -> bool {
+    match sub {
+        "ym-routes" => ctx.replay_case(&YmRouteSub, case),
+        "ym-ctor" => ctx.replay_case(&YmCtorSub, case),
+        "ym-add" => ctx.replay_case(&YmAddSub, case),
+        "ym-diff" => ctx.replay_case(&YmDiffSub, case),
+        "md-routes" => ctx.replay_case(&MdRouteSub, case),
+        "md-ctor" => ctx.replay_case(&MdCtorSub, case),
+        "md-with" => ctx.replay_case(&MdWithSub, case),
+        _ => false,
+    }
 }
